@@ -274,9 +274,18 @@ theorem pyEq_hash_sameKind {c : CmpCfg} (hsubE : ∀ f ∈ c.elHash, f ∈ c.elE
   · exact elEq_hash hsubE h
   · exact isoEq_hash hsubE hsubI h
 
+/-- … so `==` implies equal hash arguments for **all** species, no side condition -/
+theorem pyEq_hash_strict {c : CmpCfg} (hs : c.strictKind = true) (hsubE : ∀ f ∈ c.elHash, f ∈ c.elEq)
+    (hsubI : ∀ f ∈ c.isoHash, f ∈ c.isoEq) {a b : Sp} (h : pyEq c a b = true) : spHash c a = spHash c b := by
+  cases a <;> cases b
+  · exact elEq_hash hsubE h
+  · simp [pyEq, hs] at h
+  · simp [pyEq, hs] at h
+  · exact isoEq_hash hsubE hsubI h
+
 theorem pyNe_eq_not {c : CmpCfg} (hE : ∀ f, f ∈ c.elNe ↔ f ∈ c.elEq) (hI : ∀ f, f ∈ c.isoNe ↔ f ∈ c.isoEq)
     (a b : Sp) : pyNe c a b = !pyEq c a b := by
-  cases a <;> cases b <;> simp [pyNe, pyEq, elNe_eq_not hE, isoNe_eq_not hE hI]
+  cases a <;> cases b <;> simp only [pyNe, pyEq, elNe_eq_not hE, isoNe_eq_not hE hI] <;> split <;> simp
 
 
 
@@ -316,9 +325,15 @@ theorem isoEq_iff_eq {c : CmpCfg} (hE : ∀ f : EField, f ∈ c.elEq) (hI : ∀ 
     exact isoEq_refl c a
 
 /-- mixed comparison: decided on the inherited `Element` part alone -/
-theorem pyEq_mixed_iff {c : CmpCfg} (hE : ∀ f : EField, f ∈ c.elEq) (e : El) (i : Iso) :
-    (pyEq c (.el e) (.iso i) = true ↔ e = i.base) ∧ (pyEq c (.iso i) (.el e) = true ↔ e = i.base) :=
-  ⟨elEq_iff_eq hE e i.base, elEq_iff_eq hE e i.base⟩
+theorem pyEq_mixed_iff {c : CmpCfg} (hs : c.strictKind = false) (hE : ∀ f : EField, f ∈ c.elEq) (e : El) (i : Iso) :
+    (pyEq c (.el e) (.iso i) = true ↔ e = i.base) ∧ (pyEq c (.iso i) (.el e) = true ↔ e = i.base) := by
+  simp only [pyEq, hs, Bool.false_eq_true, if_false]
+  exact ⟨elEq_iff_eq hE e i.base, elEq_iff_eq hE e i.base⟩
+
+/-- with the `strictKind` guard a mixed comparison is never `==` … -/
+theorem pyEq_mixed_strict {c : CmpCfg} (hs : c.strictKind = true) (e : El) (i : Iso) :
+    pyEq c (.el e) (.iso i) = false ∧ pyEq c (.iso i) (.el e) = false := by
+  simp [pyEq, hs]
 
 theorem pyEq_sameKind_iff {c : CmpCfg} (hE : ∀ f : EField, f ∈ c.elEq) (hI : ∀ f : IField, f ∈ c.isoEq)
     {a b : Sp} (hk : SameKind a b) : pyEq c a b = true ↔ a = b := by
@@ -396,8 +411,12 @@ theorem pyEq_false_of_name_ne {c : CmpCfg} (hE : EField.name ∈ c.elEq) (hI : I
     simp [efEq, hxy]
   cases a <;> cases b <;> simp only [pyEq, Sp.base] at *
   · exact hn _ _ h
-  · exact hn _ _ h
-  · exact hn _ _ (fun e => h e.symm)
+  · split
+    · rfl
+    · exact hn _ _ h
+  · split
+    · rfl
+    · exact hn _ _ (fun e => h e.symm)
   · simp only [isoEq, List.all_eq_false]
     refine ⟨.inh .name, hI, ?_⟩
     simp [ifEq, efEq, h]
